@@ -1,4 +1,5 @@
 from ..abbreviation import parse, Abbreviation, AbbreviationNode, AbbreviationAttribute
+from ..abbreviation.convert import is_field
 from ..config import Config
 from .utils import walk, find_deepest
 
@@ -57,13 +58,28 @@ def walk_resolve(node: AbbreviationNode, resolve: callable, config: Config) -> l
 
             deepest = find_deepest(resolved)
             if isinstance(deepest[1], AbbreviationNode):
-                deepest[1].children += walk_resolve(child, resolve, config)
+                nested = walk_resolve(child, resolve, config)
+                if is_text_only(deepest[1]):
+                    # Same as for text written in place (see `convert_element()`):
+                    # children of text-only snippet without fields become its siblings
+                    if deepest[0] is resolved:
+                        children += nested
+                    else:
+                        deepest[0].children += nested
+                else:
+                    deepest[1].children += nested
         else:
             children.append(child)
             child.children = walk_resolve(child, resolve, config)
 
     node.children = children
     return children
+
+
+def is_text_only(node: AbbreviationNode):
+    "Check if given node is a text-only node without fields"
+    return not node.name and node.attributes is None and node.value \
+        and not any(is_field(t) for t in node.value)
 
 
 def merge(from_node: AbbreviationNode, to_node: AbbreviationNode):
